@@ -47,6 +47,7 @@ fn families() -> Vec<Box<dyn Family>> {
 }
 
 struct Stats {
+    leak_reported_this_case: bool,
     tags: std::collections::BTreeMap<String, u64>,
     cases: u64,
     ops: u64,
@@ -63,6 +64,9 @@ fn run_case(
 ) {
     writeln!(out, "C {}", idx).unwrap();
     stats.cases += 1;
+    // C10, for every family: whatever the case does with arenas, once its objects are gone the
+    // process-wide live-chunk counters are back where they were (the process is single-threaded).
+    let live_before = (owning_iovec::ByteArena::num_live_chunks(), owning_iovec::ByteArena::num_live_bytes());
     let mut exec: Box<dyn Exec> = fam.new_exec();
     let mut dead = false;
     for op in ops {
@@ -94,7 +98,18 @@ fn run_case(
         }
     }
     // A poisoned executor may not be droppable without a second panic.
-    let _ = catch_unwind(AssertUnwindSafe(move || drop(exec)));
+    let dropped = catch_unwind(AssertUnwindSafe(move || drop(exec))).is_ok();
+    let live_after = (owning_iovec::ByteArena::num_live_chunks(), owning_iovec::ByteArena::num_live_bytes());
+    if !dead && dropped && live_after != live_before && !stats.leak_reported_this_case {
+        writeln!(
+            out,
+            "V C10 after the case's objects were dropped {} chunks / {} bytes are live (before the case: {} / {})",
+            live_after.0, live_after.1, live_before.0, live_before.1
+        )
+        .unwrap();
+        stats.violations += 1;
+    }
+    stats.leak_reported_this_case = false;
 }
 
 fn emit(out: &mut impl Write, so: StepOut, stats: &mut Stats) {
@@ -102,6 +117,9 @@ fn emit(out: &mut impl Write, so: StepOut, stats: &mut Stats) {
         writeln!(out, "O {}", o).unwrap();
     }
     for v in so.violations {
+        if v.starts_with("C10 ") {
+            stats.leak_reported_this_case = true;
+        }
         writeln!(out, "V {}", v).unwrap();
         stats.violations += 1;
     }
@@ -161,7 +179,7 @@ fn main() {
 
     let stdout = std::io::stdout();
     let mut out = std::io::BufWriter::with_capacity(1 << 20, stdout.lock());
-    let mut stats = Stats { tags: Default::default(), cases: 0, ops: 0, panics: 0, violations: 0 };
+    let mut stats = Stats { leak_reported_this_case: false, tags: Default::default(), cases: 0, ops: 0, panics: 0, violations: 0 };
 
     let mut enumerated = 0u64;
     if let Some(path) = replay {
